@@ -250,8 +250,14 @@ func cmdCheck(args []string) int {
 	for _, k := range keys {
 		f, ok := prog.funcs[k]
 		if !ok || f.Blocks == nil {
-			fmt.Printf("TOOL-ERROR: contract target %s not found in the source (renamed or removed?)\n", k)
-			toolErr = true
+			// the function the property's obligations were attached to is gone (removed, renamed,
+			// split): those obligations can no longer be discharged -- reported as a failed
+			// obligation (it passed on the tree the contract was written for), not as a tool error
+			fmt.Printf("NOTE: contract target %s not found in the source (renamed, removed or restructured)\n", trimName(k))
+			ct := prog.cs.Funcs[k]
+			o := &Obligation{Name: trimName(k) + ":structural.contract-target-exists", Kind: "structural", Func: trimName(k), Where: ct.Where, Expect: "unsat",
+				Text: "the function under contract exists, so that its obligations (" + fmt.Sprint(len(ct.Ensures)) + " postconditions, " + fmt.Sprint(len(ct.Requires)) + " preconditions) can be generated"}
+			structural = append(structural, &oblResult{O: o, Q: "; decided while loading the packages\n", Res: SolverResult{Status: "unknown", Solver: "kbv-load", Output: "no function " + k + " in the loaded packages"}})
 			continue
 		}
 		g := newGen(prog, f, prog.cs.Funcs[k])
